@@ -127,8 +127,12 @@ def nearTri (cell : Mat3) (m atol : Rat) (p : Vec3) : Bool :=
     -- s/‖n‖ ≤ D   and   −vol/‖n‖ − D ≤ s/‖n‖
     leSqrtAdd s (m * nn) (4 * atol * atol * nn) && leSqrtAdd (-s - vol) (m * nn) (4 * atol * atol * nn))
 
+/-- all three diagonal entries positive: the box test of the orthorhombic branch presupposes it
+    (`np.any(np.diag(cell) <= 0)` sends every other cell through the plane tests) -/
+def Mat3.diagPos (c : Mat3) : Bool := decide (0 < c.a.x) && decide (0 < c.b.y) && decide (0 < c.c.z)
+
 def nearTest (cell : Mat3) (m atol : Rat) (p : Vec3) : Bool :=
-  if cell.isOrtho then nearOrtho cell m atol p else nearTri cell m atol p
+  if cell.isOrtho && cell.diagPos then nearOrtho cell m atol p else nearTri cell m atol p
 
 /-- `near_indices`: indices into `allPositions` that pass the window, in order -/
 def nearIndices (cell : Mat3) (allPos : List Vec3) (m atol : Rat) : List Nat :=
